@@ -161,7 +161,9 @@ def main(tier: str, selftest_cases: int = 0) -> int:
         raise symnum.HarnessError("no isomorphism exists yet no reachable pair disagrees within the bound: "
                                   "unreachable states differ or the encoding is wrong")
     # ---- driver / witness validation against the real parsers -----------------------------
-    validated = validate_driver(a, terms)
+    # (only meaningful while the shipped tables are sane: with a corrupt table the real parser
+    # crashes where the reference driver rejects, and the violation is already reported)
+    validated = validate_driver(a, terms) if rep.violations == 0 else 0
     rep.coverage["driver_validated_sequences"] = validated
     rep.sample({"terminals": {n: a.terminals[n][1] for n in a.term_names}})
     rep.sample({"rules": [str(a.rule_content(r)) for r in sorted(a.rules)][:6]})
